@@ -128,11 +128,12 @@ func c16EvalParallel(t *fw.T, c *fw.Case) {
 	wg.Wait()
 	// one more project for the same-bytes rounds in every case: escaped quoted parameters throughout (whatever the library
 	// does to a parameter it must do to a copy of its own), long enough for the parses to overlap
-	{
+	extra := 3
+	for e := 0; e < extra; e++ {
 		var sb strings.Builder
-		fmt.Fprintf(&sb, "JSIGHT 0.3\nINFO\n  Title \"Pets \\\"API\\\" \\\\v%d\"\n", c.Index)
+		fmt.Fprintf(&sb, "JSIGHT 0.3\nINFO\n  Title \"Pets \\\"API\\\" \\\\v%d\"\n", c.Index*10+e)
 		for k := 0; k < 300; k++ {
-			fmt.Fprintf(&sb, "GET \"/pets/\\\"q%d_%d\\\"/\\\\x\"\n  200 any\n", c.Index, k)
+			fmt.Fprintf(&sb, "GET \"/pets/\\\"q%d_%d_%d\\\"/\\\\x\"\n  200 any\n", c.Index, e, k)
 		}
 		d := run.Single([]byte(sb.String()))
 		c.Docs = append(c.Docs, d)
@@ -142,7 +143,7 @@ func c16EvalParallel(t *fw.T, c *fw.Case) {
 		badDoc = append(badDoc, 0)
 	}
 	// then every goroutine parses the very same projects (the same bytes) at the same moment
-	for _, j := range []int{c.Index % len(c.Docs), (c.Index + 5) % len(c.Docs), len(c.Docs) - 1} {
+	for _, j := range []int{c.Index % (len(c.Docs) - extra), (c.Index + 5) % (len(c.Docs) - extra), len(c.Docs) - 1, len(c.Docs) - 2, len(c.Docs) - 3} {
 		// a pristine copy of the bytes, which no parse has seen yet, shared by all goroutines
 		shared := c.Docs[j]
 		shared.Files = map[string][]byte{}
